@@ -65,15 +65,45 @@ PROPS["C19"] = {
     "trusted": ["go/parser + the AST walk (type list is an input)", "strconv.FormatFloat", "the compiler's argument layout under -N -l (validated end to end)"],
 }
 
+
+PROPS["C07"] = {
+    "lean": ["PP.Props.C07", "PP.Props.C09b", "PP.Tie.Scan"],
+    "what": "Delimitation and resumable scanning. For arbitrary bytes: scanL_prefix_nostart (text that starts no dump is forwarded and does not influence the scan), scanL_stopped_append (everything after the terminating line is returned untouched), locality / locality_goroutines (a dump embedded in a stream yields the goroutines of scanning it alone), specLines_suffix (a remainder re-splits into the same lines), rest_is_suffix, resume_tiles (the consumed segments of repeated scanning tile the input: nothing scanned twice or skipped), resume_progress / resume_terminates (every call from the initial state consumes at least one line, so repeated scanning terminates), resume_blocks (k dumps separated by text give k snapshots, each equal to scanning that dump alone). Documented grammar: Dump/Race as inductive predicates over line kinds, a reference automaton proved equivalent to them (dfa_dump_iff, dfa_race_iff), and the simulation scan_on_canonical / munch / munch_scanL / dump_delimited: on canonical lines the scanner consumes exactly the longest viable prefix and ends cleanly exactly in accepting positions. Harness: all line-kind sequences up to a bound from the initial state (implementation vs model), multi-dump streams with the resume protocol against the dumps' descriptions.",
+    "partial": "after a 'stack unavailable' line the scanner requires a blank or created-by line and reports any other line as an error although it still returns it unconsumed (unavail_needs_blank; this is what the state comments of the code document); an indented dump followed by unindented text likewise ends with the 'inconsistent indentation' error (pinned by the repository's test 14). Drivers that stop on any error (the pp command) stop there.",
+    "trusted": ["io.MultiReader(suffix, rest) delivers suffix then rest"],
+}
+PROPS["C10"] = {
+    "lean": ["PP.Props.C10", "PP.Props.C09b", "PP.Tie.Scan", "PP.Tie.Reader"],
+    "what": "Truncation and read-failure tolerance: specLines_take, scanL_common_prefix, cut_uncut (the cut and the uncut run share the scan of the common complete lines), cut_no_panic, cut_error_kind / reader_failure_not_masked / parse_error_before_failure (which error is reported), scan_preserves_earlier / scanL_preserves_earlier / cut_prefix_goroutines / cut_goroutines_agree (every goroutine but the one being read at the cut is identical in both runs), cut_forwarded / cut_forwarded_prefix (forwarded(cut) is a prefix of forwarded(uncut) unless the unterminated fragment is forwarded while no dump is in progress), K2_fragment_forwarded (refutation of the literal sentence on the known-finding witness), cut_delivery (transport to every delivery schedule); harness: every byte offset of generated dumps/race reports x {EOF, error after data, error with data} against the uncut run of the implementation.",
+    "partial": "known finding K2: a cut inside the line that starts a dump forwards the fragment (required by C02: a stream without a dump must be reproduced identically; pinned by the repository's test RaceHdr1Err), so the literal 'forwarded bytes are a prefix' fails exactly there; the theorem carves that case out (states looking / gotRaceHeader1). Preservation of earlier goroutines across a cut inside a race report is proved per step (scan_preserves_others), not for the whole loop. A parse error on a complete line before the failure point is reported instead of the (not yet reached) reader failure (parse_error_before_failure).",
+    "trusted": ["io.Reader contract"],
+}
+PROPS["C11"] = {
+    "lean": ["PP.Props.C11", "PP.Tie.Reader"],
+    "what": "Streaming progress at library level, over an instrumented copy of the reader and loop proved to erase to the model (fillLoopT_erases ... scanBT_erases): read_only_without_newline (the source is asked for more only when the bytes held contain no complete line), released_before_blocking / complete_lines_released (at every Read every complete line delivered so far has been scanned, and written if it is pass-through: zero look-ahead), returns_at_terminator (no Read after the terminating line was scanned), fill_single_read (fill returns after the first read that yields data or an error); harness: scripted reader/writer recording what the writer holds at every Read and that no Read follows the delivery of the terminating line.",
+    "partial": "end to end on the pp binary the guarantee also depends on OS pipe buffering and on os.Stdout being unbuffered: runtime facts the model cannot exhibit.",
+    "trusted": ["io.Reader contract", "the pass-through writer does not buffer"],
+}
+PROPS["C17"] = {
+    "lean": ["PP.Props.C17", "PP.Tie.Html"],
+    "what": "HTML rendering: htmlEscaper_safe, attrEscaper_safe, urlNormalizer_safe (the escapers of html/template, transcribed, never emit markup bytes), text_hole_safe, class_hole_safe, href_hole_bytes_safe, scheme_fixed_srcURL / scheme_fixed_pkgURL (every link target is empty or starts with a literal https:// or file:/// prefix, for every Call), href_hole_safe_srcURL/_pkgURL, content_markup_is_template_markup (the markup bytes of the rendered content are exactly the template's own: holes contribute none), complete_snapshot / complete_aggregated / complete_table (one h1 per bucket or goroutine, one row per frame, one elided row per elided stack); pins: the template is parsed by html/template itself on every run and every one of its 51 holes is pinned with the escaper pipeline html/template assigned to it (a change of the template, of a cast, or a switch to text/template breaks a pin by name); harness: hostile snapshots (30 payload kinds in every string field) rendered by the implementation, tokenised with x/net/html and compared with a benign twin of the same shape; builders and escapers compared with the model.",
+    "partial": "html/template's context analysis and execution engine are trusted (its decisions are read back and pinned, not re-derived); the Metadata section is covered by the direct oracle only; url_components_escaped_partial: the repository name is inserted into github links unescaped by the builder (made safe by html/template's normaliser at the hole).",
+    "trusted": ["html/template context analysis + execution", "net/url escaping tables as transcribed", "RE2 semantics behind reVersion / reMethodSymbol hand matchers"],
+}
+PROPS["C20"] = {
+    "lean": ["PP.Props.C20", "PP.Tie.Web"],
+    "what": "Web handler decision logic: handler_status_mem/_405/_400/_500/_200 (the full decision table as iff-statements), valid_get_ok, invalid_is_4xx, invalid_before_snapshot_is_4xx, atoi_accepts (strconv.Atoi characterised), augmentOK_iff, grow_first / grow_increasing / grow_bound / grow_terminates / fits_complete / nofit_truncated (the buffer-doubling loop terminates and captures the whole dump when it fits); pins: handler order method -> maxmem -> augment -> snapshot -> similarity, constants; harness: exhaustive parameter grid on the real handler (status, content type, exact goroutine accounting of the page), live self-snapshots of a churn workload with registered goroutines in known states (states, frames, creators, lock flag, elision; goroutine count against an independent count), concurrent requests.",
+    "partial": "what the runtime prints in every scheduling state and behaviour under concurrent HTTP load are runtime facts: the model is fed what was actually printed (live stream, and a -race driver in the thorough tier). An invalid similarity together with a failed snapshot answers 500 (invalid_similarity_failed_snapshot_is_500); dumps that do not fit in max(maxmem, 1 MiB) are outside the property.",
+    "trusted": ["net/http FormValue/Method", "runtime.Stack returns min(need, len)", "the Go runtime's goroutine state names"],
+}
+
 # Harness-only entries: checks that run (bin/seedtest, development) but are not
 # claimed in MANIFEST.json until their theorems exist.
 EXTRA = {
     "C01": {"lean": ["PP.Tie.Scan", "PP.Tie.Reader"], "what": "harness only"},
-    "C07": {"lean": ["PP.Tie.Scan"], "what": "harness only"},
     "C08": {"lean": ["PP.Tie.Scan"], "what": "harness only"},
-    "C10": {"lean": ["PP.Tie.Scan", "PP.Tie.Reader"], "what": "harness only"},
-    "C11": {"lean": ["PP.Tie.Reader"], "what": "harness only"},
-    "C14": {"lean": ["PP.Tie.Globals"], "what": "harness only"},
+    "C14": {"lean": ["PP.Tie.Globals", "PP.Tie.Alias"], "what": "harness only"},
+    "C18": {"lean": [], "what": "harness only"},
 }
 
 NOT_CLAIMED = {}
